@@ -551,12 +551,13 @@ type OutCase struct {
 	Sep     string    `json:"sep"`
 	TSV     bool      `json:"tsv"`
 	Rebuild bool      `json:"rebuild"` // via $1 = $1 ... rebuilding $0 instead of print a, b, c
+	CRLF    bool      `json:"crlf"`    // Config.NewlineOutput = CRLF: records end in \r\n, which the input mode accepts
 }
 
 var outPieces = []string{"a", "b", ",", ";", "|", "\t", "\"", "\n", " ", "", "é", "\x00", "\xff", "x y", "#", "12", "'"}
 
 func genOut(t *rapid.T) OutCase {
-	c := OutCase{Sep: rapid.SampledFrom([]string{",", ",", ";", "|", "é", "\t"}).Draw(t, "sep"), Rebuild: rapid.IntRange(0, 2).Draw(t, "rebuild") == 0}
+	c := OutCase{Sep: rapid.SampledFrom([]string{",", ",", ";", "|", "é", "\t"}).Draw(t, "sep"), Rebuild: rapid.IntRange(0, 2).Draw(t, "rebuild") == 0, CRLF: rapid.IntRange(0, 2).Draw(t, "crlf") == 0}
 	c.TSV = c.Sep == "\t"
 	for r := rapid.IntRange(1, 3).Draw(t, "nrec"); r > 0; r-- {
 		var rec []h.Str
@@ -617,7 +618,11 @@ func runOut(x *h.Ctx, c OutCase) string {
 		return fmt.Sprintf("harness: %v\n%s", err, src.String())
 	}
 	var out bytes.Buffer
-	if _, err := interp.ExecProgram(prog, &interp.Config{Stdin: strings.NewReader(""), Output: &out, Error: &out, Argv0: "goawk", Environ: []string{}}); err != nil {
+	wcfg := &interp.Config{Stdin: strings.NewReader(""), Output: &out, Error: &out, Argv0: "goawk", Environ: []string{}}
+	if c.CRLF {
+		wcfg.NewlineOutput = interp.CRLFNewlineMode
+	}
+	if _, err := interp.ExecProgram(prog, wcfg); err != nil {
 		return fmt.Sprintf("writing failed: %v\nprogram: %s", err, src.String())
 	}
 	written := out.String()
